@@ -151,7 +151,8 @@ def mutable_members(obj, path, out, depth=0):
 
 def _member(v, path, out, depth):
     if isinstance(v, (dict, list, bytearray, lib.base.BasicProperties,
-                      lib.base.Frame)):
+                      lib.base.Frame, lib.header.ContentHeader,
+                      lib.body.ContentBody, lib.header.ProtocolHeader)):
         out.append((id(v), path))
         mutable_members(v, path, out, depth + 1)
 
@@ -259,9 +260,22 @@ class RunB:
             self.ev('cancel', tid, os.path.basename(code.co_filename), line)
             raise Cancelled()
         sch = self.schedule
+        pick = None
         if self.sched_i < len(sch) and self.step >= sch[self.sched_i][0]:
             pick = sch[self.sched_i][1]
             self.sched_i += 1
+        if code is not None and self.novel is not None:
+            # additionally switch at every k-th pamqp line this run executes
+            # for the first time (lazy init, cache refill, error branches)
+            key = (code.co_filename, line)
+            if key not in self.novel_seen:
+                self.novel_seen.add(key)
+                self.novel_n += 1
+                if self.novel_n % self.novel['every'] == 0 and pick is None:
+                    picks = self.novel['picks']
+                    pick = picks[self.novel_i % len(picks)]
+                    self.novel_i += 1
+        if pick is not None:
             others = [t for t in range(self.nthreads)
                       if t != tid and not self.finished[t]]
             if not others:
@@ -428,6 +442,8 @@ class RunB:
                         # a caller-side mutation by another thread may have
                         # landed while this call was pre-empted
                         rec.dirty = rec.dirty or src.dirty
+                        # (also when the call is being cancelled)
+                        rec.version = 0 if src.version == v0 else 1
                     # twin encode: a fresh object with equal contents must
                     # give the same bytes (no stale cache, no hidden state)
                     twin = structural_copy(src.live)
@@ -542,6 +558,10 @@ class RunB:
         self.schedule = [list(x) for x in tr.get('schedule', [])]
         self.sched_i = 0
         self.cancels = sorted(tr.get('cancels', []))
+        self.novel = tr.get('novel') or None
+        self.novel_seen = set()
+        self.novel_n = 0
+        self.novel_i = 0
         self.exit_picks = tr.get('exit_picks', [0])
         self.exit_i = 0
         self.finished = [False] * n
